@@ -11,18 +11,47 @@ def include_source_rule(rep):
     g = load.functions_of(tree).get('Grammar')
     if g is None:
         raise AnalysisError('anchor grammar.Grammar vanished')
-    uses = [n for n in ast.walk(g) if isinstance(n, ast.Name) and n.id == 'include_source']
-    rep.count('uses of include_source', len(uses))
-    ok_sites = 0
+    # def-use: the flag (and every local computed from it) may only flow into the `source_var`
+    # argument; it must not decide a branch or reach any other call
+    tainted = {'include_source'}
+    sink = set()
     for n in ast.walk(g):
         if isinstance(n, ast.keyword) and n.arg == 'source_var':
-            ok_sites += len([x for x in ast.walk(n.value) if isinstance(x, ast.Name) and x.id == 'include_source'])
-    rep.oblige(len(uses) == ok_sites)
-    if len(uses) != ok_sites:
+            sink |= {id(x) for x in ast.walk(n.value)}
+    changed = True
+    while changed:
+        changed = False
+        for n in ast.walk(g):
+            if isinstance(n, ast.Assign) and any(isinstance(x, ast.Name) and x.id in tainted and id(x) not in sink
+                                                 for x in ast.walk(n.value)):
+                for t in n.targets:
+                    if isinstance(t, ast.Name) and t.id not in tainted:
+                        tainted.add(t.id)
+                        changed = True
+    ok_nodes = set()
+    for n in ast.walk(g):
+        if isinstance(n, ast.keyword) and n.arg == 'source_var':
+            ok_nodes |= {id(x) for x in ast.walk(n.value)}
+        if isinstance(n, ast.Assign) and any(isinstance(t, ast.Name) and t.id in tainted for t in n.targets):
+            ok_nodes |= {id(x) for x in ast.walk(n.value)}
+    uses = [n for n in ast.walk(g) if isinstance(n, ast.Name) and n.id in tainted and isinstance(n.ctx, ast.Load)]
+    rep.count('uses of include_source (and locals computed from it)', len(uses))
+    stray = [n for n in uses if id(n) not in ok_nodes]
+    rep.oblige(not stray)
+    if stray:
         rep.add(Finding('SRC-flag', 'sourcer/grammar.py:Grammar', 'include_source',
-                        f'include_source is consulted at {len(uses) - ok_sites} place(s) other than the source_var '
-                        f'argument: requesting the source must not influence the module',
-                        'sourcer/grammar.py:Grammar'))
+                        f'include_source (or a value computed from it: {sorted(tainted)}) is used at line '
+                        f'{stray[0].lineno} outside the source_var argument: requesting the source must not '
+                        f'influence the module', 'sourcer/grammar.py:Grammar'))
+
+
+def anonymous_name_only(fn, idcall):
+    """the id() value flows only into the f-string that names an anonymous rule"""
+    for n in ast.walk(fn):
+        if isinstance(n, ast.JoinedStr) and any(x is idcall for x in ast.walk(n)):
+            lit = ''.join(v.value for v in n.values if isinstance(v, ast.Constant))
+            return lit.startswith('_anonymous_')
+    return False
 
 
 def determinism_rule(rep):
@@ -45,8 +74,9 @@ def determinism_rule(rep):
                         and fname != 'assign_id':
                     n_id += 1
                     src = ast.unparse(node)
-                    allowed = rel == 'sourcer/translator.py' and fname == 'generate_source_code' \
-                        and src == 'id(rule)'
+                    allowed = rel == 'sourcer/translator.py' and fname.split('.')[0] == 'generate_source_code' \
+                        and isinstance(node.args[0] if node.args else None, ast.Name) and node.func.id == 'id' \
+                        and anonymous_name_only(fn, node)
                     rep.oblige(allowed)
                     if not allowed:
                         rep.add(Finding('DETERMINISM', f'{rel}:{fname}', src,
